@@ -196,6 +196,10 @@ func (ap *AttestationPool) Search(opts ...AttSearchOption) (out []*phase0.Attest
 			continue
 		}
 		agg := ap.aggregate[k]
+		if agg == nil {
+			// only individual votes are known for this data
+			continue
+		}
 		for _, a := range agg.Aggregates {
 			out = append(out, &phase0.Attestation{AggregationBits: a.Participants, Data: d.Data, Signature: a.Sig})
 		}
